@@ -3,6 +3,15 @@
  _signatures.signature  (obj a plain function f)
    post:is_def_signature   C08/C11/C14  upgraded signature with exactly f's def parameters, every parameter sourced to [f],
                                         depth {f: 0}; each upgraded annotation denotes the annotation in f's globals
+ _signatures.signature  (obj a wrapper w with w.__wrapped__ = f, as functools.wraps leaves it; mode 'wrapped')
+   post:is_def_signature   C11/C08  like inspect.signature, plain retrieval reports f's parameters; they are sourced to w (the object
+                                  inspected), and each upgraded annotation denotes the annotation in the globals of f - the
+                                  function that DEFINED it - whatever the compilation mode of w
+                                  (ASSUMPTION INSPECT-WRAPPED: inspect.signature follows __wrapped__ up to an explicit __signature__)
+ _signatures.signature  (obj carries an already upgraded signature in __signature__, with or without provenance; mode 'stored':
+                         inspect.signature hands back that very object)
+   frame:stored_signature_unchanged  C16  retrieval does not write to the object stored on the callable (nor to its parameters,
+                                          provenance map or lists); what it returns has the stored parameters
  _signatures.signature  (obj = functools.partial(f, *a, **k))
    post:partial_exact      C19  for every non-colliding call c: accepts(result, c) <=> accepts(def(f), (|a| + c.n, keys(k) u c.S))
    raises:only_if_impossible C19  ValueError => no call makes f accept (|a| + c.n, keys(k) u c.S)
@@ -30,6 +39,7 @@ C_KW = clause(U, 'post:partial_keywords', ['C19', 'C10'], 'B')
 C_SRC = clause(U, 'post:partial_sources', ['C19', 'C08'], 'B')
 C_UA = clause(U, 'post:ua_follows', ['C11'], 'B')
 C_ONLY_VE = clause(U, 'raises:only_ValueError', ['C15'], 'B')
+C_STORED = clause(U, 'frame:stored_signature_unchanged', ['C16'], 'B')
 
 
 def source_value_term(I, ua):
@@ -67,6 +77,14 @@ def partial_vcs(env, want):
     m = I.module('sigtools._signatures')
     UP, US = m.ns['UpgradedParameter'], m.ns['UpgradedSignature']
     dv = sig_view(info.sig)
+    if mode == 'stored':
+        if on(C_STORED):
+            out.append(VC(C_STORED.full, [], z3.BoolVal(not ctx.heap_writes), C_STORED.props))
+            env['frame_writes'] = list(ctx.heap_writes)
+            ok = r.outcome == 'return' and isinstance(r.value, Inst) and '_parameters' in r.value._d and \
+                len(r.value._d['_parameters'].plist) == len(info.params) and all(a is b or a._d.get('_name') is b._d.get('_name') for a, b in zip(r.value._d['_parameters'].plist, info.params))
+            out.append(VC(C_STORED.full + ':returns_the_stored_parameters', [], z3.BoolVal(bool(ok)), C_STORED.props))
+        return out
     if r.outcome == 'raise':
         if on(C_ONLY_VE):
             out.append(VC(C_ONLY_VE.full + ':type', [], z3.BoolVal(exc_is(I, r.exc, 'ValueError')), C_ONLY_VE.props))
@@ -77,7 +95,7 @@ def partial_vcs(env, want):
             not_po = [t != q for t in keys for q in po_names]
             residual = call.plus(env['n'].t, keys)
             out.append(VC(C_RAISE.full, ccons + not_po + [spec.accepts(Z3Ops, dv, residual)], z3.BoolVal(False), C_RAISE.props))
-        elif mode == 'plain' and on(C_DEF):
+        elif mode in ('plain', 'wrapped') and on(C_DEF):
             out.append(VC(C_DEF.full + ':no_exception', [], z3.BoolVal(False), C_DEF.props))
         return out
     res = r.value
@@ -90,7 +108,8 @@ def partial_vcs(env, want):
         return out
     ent, dep = src_entries(src)
     rv = sig_view(res)
-    if mode == 'plain':
+    if mode in ('plain', 'wrapped'):
+        owner = env.get('w', f)       # whom the parameters are attributed to: the object inspected
         if on(C_DEF):
             same = len(rparams) == len(info.params) and all(p.kind == q.kind for p, q in zip(rparams, info.params))
             goal = [z3.BoolVal(same)]
@@ -104,8 +123,8 @@ def partial_vcs(env, want):
             g2 = [z3.BoolVal(good)]
             if good:
                 for p in rparams:
-                    g2.append(z3.Or(*[z3.And(key_eq(k, name_term(p)), z3.BoolVal(len(lst) == 1), *[x.t == f.t for x in lst]) for k, lst in ent]))
-                g2.append(z3.And(dep.items_[0][0].t == f.t, sym.zint(dep.items_[0][1]) == 0))
+                    g2.append(z3.Or(*[z3.And(key_eq(k, name_term(p)), z3.BoolVal(len(lst) == 1), *[x.t == owner.t for x in lst]) for k, lst in ent]))
+                g2.append(z3.And(dep.items_[0][0].t == owner.t, sym.zint(dep.items_[0][1]) == 0))
             out.append(VC(C_DEF.full + ':provenance', [], z3.And(*g2), C_DEF.props))
     else:
         n = env['n']
@@ -159,7 +178,7 @@ def partial_vcs(env, want):
                 out.append(VC(C_SRC.full + ':entry:%s' % p._d.get('_vf_tag', 'new'), [], z3.Or(*alts) if alts else z3.BoolVal(False), C_SRC.props))
             for k, lst in ent:
                 out.append(VC(C_SRC.full + ':key_is_parameter:%s' % (k,), [], z3.Or(*[key_eq(k, name_term(p)) for p in rparams]) if rparams else z3.BoolVal(False), C_SRC.props))
-    if on(C_UA) or (mode == 'plain' and on(C_DEF)):
+    if on(C_UA) or (mode in ('plain', 'wrapped') and on(C_DEF)):
         c = C_UA if on(C_UA) else C_DEF
         ids = {id(p): i for i, p in enumerate(info.params)}
         for p in rparams:
@@ -173,7 +192,7 @@ def partial_vcs(env, want):
                 continue
             oa = o._d['_annotation']
             out.append(VC(c.full + (':ua:%s' % p._d.get('_vf_tag', '?')), [], z3.And(h == oa.has, z3.Implies(oa.has, v == denotes(f, oa))), c.props))
-        if mode == 'plain':
+        if mode in ('plain', 'wrapped'):
             try:
                 h, v = source_value_term(I, res._d['upgraded_return_annotation'])
                 ra = info.sig._d['_return_annotation']
@@ -199,13 +218,31 @@ def make_runner(shape, nkeys=1, mode='partial', want=None):
     I.boundary_hooks['_signatures:UpgradedParameter._upgrade'] = ghost_upgrade
 
     def run(ctx, r):
-        info = mk_sig(I, ctx, 's', shape, tracked=False, annotations=(mode == 'plain'))
-        f = world.SymFunc(info.funcs[0].t, label='f', def_sig=world.plain_signature(I, info))
+        info = mk_sig(I, ctx, 's', shape, tracked=(mode == 'stored'), annotations=(mode in ('plain', 'wrapped')))
+        if mode == 'stored' and ctx.decide(z3.Bool('stored_signature_was_assembled_by_hand')):
+            harness.strip_provenance(info)
+        f = world.SymFunc(info.funcs[0].t if mode != 'stored' else z3.Const('f_carrier', RefS), label='f',
+                          def_sig=(info.sig if mode == 'stored' else world.plain_signature(I, info)), postponed=info.funcs[0].postponed)
         env['info'], env['f'], env['r'] = info, f, r
+        env.pop('w', None)
         world.install_externals(I, {})
         r.inputs = [info]
-        if mode == 'plain':
+        if mode in ('plain', 'stored'):
             obj = f
+        elif mode == 'wrapped':
+            # what functools.wraps leaves: another function (its own globals, its own compilation mode) whose
+            # __wrapped__ is f - directly or through one more wrapper
+            w = world.SymFunc(z3.Const('w_outer', RefS), label='w')
+            ctx.add(w.t != f.t)
+            if ctx.decide(z3.Bool('two_wrappers_deep')):
+                mid = world.SymFunc(z3.Const('w_mid', RefS), label='w_mid')
+                ctx.add(z3.Distinct(w.t, mid.t, f.t))
+                mid.attrs['__wrapped__'] = f
+                w.attrs['__wrapped__'] = mid
+            else:
+                w.attrs['__wrapped__'] = f
+            env['w'] = w
+            obj = w
         else:
             nt = z3.Int('partial_n')
             ctx.add(nt >= 0)
@@ -240,6 +277,25 @@ def _concrete_case(env, conc):
     fn = make_function(specs, 'f', ret, postponed_globals=conc.postponed_env(info))
     if env['mode'] == 'plain':
         return fn, fn, None, None
+    if env['mode'] == 'wrapped':
+        # functools.wraps wrappers with their OWN globals (the annotation names are bound to other objects there) and
+        # their own compilation mode
+        def wrapper_of(inner, sym_w, tag):
+            post = conc.boolean(sym_w.postponed)
+            g = {k: ('in the globals of the wrapper', k) for k in (conc.postponed_env(env['info']) or {})}
+            src = '%sdef %s(*args, **kwargs):\n    return None\n' % ('from __future__ import annotations\n' if post else '', tag)
+            exec(compile(src, '<vf-wrapper-%s>' % tag, 'exec'), g)
+            return functools.update_wrapper(g[tag], inner)
+        w = env['w']
+        chain = []
+        o = w
+        while o is not env['f']:
+            chain.append(o)
+            o = o.attrs['__wrapped__']
+        obj = fn
+        for i, sw in enumerate(reversed(chain)):
+            obj = wrapper_of(obj, sw, 'w%d' % i)
+        return fn, obj, None, None
     n = conc.integer(env['n'])
     kw = {conc.name(k): conc.val(v) for k, v in zip(env['keys'], env['vals'])}
     return fn, functools.partial(fn, *range(100, 100 + n), **kw), n, kw
@@ -251,9 +307,19 @@ def replay(env, vc, model):
     real_sigtools()
     from sigtools import _signatures
     conc = Concretizer(model)
+    if env['mode'] == 'stored':
+        stored = conc.build_input(env['info'])
+
+        def carrier(*args, **kwargs):
+            return None
+        carrier.__signature__ = stored
+        before = rt.snapshot_sig(stored)
+        oc = rt.run_real(_signatures.signature, carrier)
+        bad = [] if rt.snapshot_sig(stored) == before else [('frame:stored_signature_unchanged', 'the object stored in __signature__ differs after retrieval: sources now %r' % (stored.sources,))]
+        return dict(op='signature', mode='stored', stored=sig_str(stored), status='reproduced' if bad else 'not-reproduced', violated=[list(b) for b in bad])
     fn, obj, n, kw = _concrete_case(env, conc)
     oc = rt.run_real(_signatures.signature, obj)
-    bad = rt.check_partial(fn, obj, n, kw, oc) if env['mode'] == 'partial' else rt.check_plain_retrieval(fn, oc)
+    bad = rt.check_partial(fn, obj, n, kw, oc) if env['mode'] == 'partial' else rt.check_plain_retrieval(fn, oc, owner=obj)
     short = vc.name.split('/', 1)[1]
     key = ':'.join(short.split(':')[:2])
     hit = [b for b in bad if b[0].startswith(key)]
@@ -265,6 +331,8 @@ def replay(env, vc, model):
 
 
 def crosscheck(env, r):
+    if env['mode'] == 'stored':
+        return None
     from vf.concrete import Concretizer, real_sigtools
     from vf import rt
     real_sigtools()
